@@ -7,6 +7,7 @@ SPEC = {
                                     "C16_rule_kind_matters", "C16_alerts_answered_from_rules",
                                     "C16_verdict_reflects_database_at_probe_instants", "C16_probe_instants",
                                     "C16_range_probe_is_unsliced_runs", "C16_disappeared_metric_is_reported", "C16_matcher_never_matches_is_reported",
+                                    "C16_checked_selectors_are_the_reachable_ones_without_own_fallback",
                                     "C16_checked_selectors_are_those_without_own_fallback", "C16_checked_selectors_examples",
                                     "C16_nonvacuous"]},
     "harness_args": lambda tier: ["C16", "--n", 400 if tier == "quick" else 3000],
@@ -21,7 +22,7 @@ SPEC = {
         "accumulated len(problems) tests, step 4 (min-age), steps 5-7 per matcher, step 8, FindGaps against the uptime; the request "
         "parameters (instant: no time parameter; range: start/end/step of C13's slices). One sub-case is Undetermined and not compared "
         "(step 6 with non-empty gap lists on both sides: sub-millisecond clock differences decide it)",
-        "hand-written model Model/SeriesSelectors.v of getNonFallbackSelectors / appendJoinSelectors / selectorHasFallback over a model "
+        "hand-written model Model/SeriesSelectors.v of getNonFallbackSelectors / appendOperandSelectors / appendUnlessSelectors / selectorHasFallback over a model "
         "of the Source tree of utils.LabelsSource (Selector, AlwaysReturns, IsConditional, Joins, Unless) for the fragment selectors / "
         "always-returning operands / wrappers / comparisons with numbers / or / joins / unless; tied by comparing, on every case, the "
         "ordered list of positions it computes with the list the real function returns (the harness converts the Prometheus AST)",
@@ -61,9 +62,11 @@ MANIFEST = {
             "ignoreMetrics, and no other server (or no ignoreMatchingElsewhere), gets exactly a Bug 'query on nonexistent series'; "
             "carve-outs are explicit premises (only checked selectors; ALERTS answered from ALERTING rules - "
             "C16_alerts_answered_from_rules). WHICH selectors are checked is a theorem too: "
-            "C16_checked_selectors_are_those_without_own_fallback - over a model of the Source tree, for unless-free expressions the "
-            "checked selectors are all selectors of the expression except those sitting beside an `or <always returning>` (an "
-            "always-returning operand elsewhere exempts nothing; nested joins are followed). The probe instants are pinned: the request parameters are part of the model, "
+            "C16_checked_selectors_are_the_reachable_ones_without_own_fallback - over a model of the Source tree, for every expression "
+            "of the fragment (incl. unless) the checked selectors are the reachable selectors (all except those inside an `unless` "
+            "operand that is not a condition) that do not sit beside an `or <always returning>`; without unless: all selectors except "
+            "those with their own or-fallback (an always-returning operand elsewhere exempts nothing; nested joins and conditional "
+            "unless operands are followed). The probe instants are pinned: the request parameters are part of the model, "
             "C16_verdict_reflects_database_at_probe_instants - the whole verdict list (steps 0-8) is a function of the database at "
             "`now` and at the grid points of the slices (C16_probe_instants), C16_range_probe_is_unsliced_runs - every range probe is "
             "the runs of ONE unsliced evaluation (C13). Steps 3-8 are modelled and compared; two links are stated: "
